@@ -1,6 +1,10 @@
 package main
 
-import "fmt"
+import (
+	"fmt"
+	"go/ast"
+	"go/types"
+)
 
 // E1 R-WRAP: delegation equivalence. The property statements name these
 // equalities literally ("Add equals AddWithMode under DefaultRoundingMode",
@@ -62,22 +66,51 @@ func ruleWrap(c *Ctx) {
 			return "if(call(math.IsNaN;conv(float64;P0))){return call(nan;" + k("payloadOpFromFloat32") + ",K(0),K(0))};return call(FromFloat64;conv(float64;P0))"
 		}, []string{"C09"}, "FromFloat32 = FromFloat64(float64(f)) except for the NaN payload"},
 		{"FromRat", func(k func(string) string) string {
-			return "L0:=call(math/big.Rat.Num;recv=P0);if((call(math/big.Int.Sign;recv=L0)==K(0))){return call(zero;K(false))};L1:=call(math/big.Rat.Denom;recv=P0);return call(Decimal.Quo;recv=call(FromInt;L0),call(FromInt;L1))"
+			return "L0:=call(math/big.Rat.Num;recv=P0);if((K(0)==call(math/big.Int.Sign;recv=L0))){return call(zero;K(false))};L1:=call(math/big.Rat.Denom;recv=P0);return call(Decimal.Quo;recv=call(FromInt;L0),call(FromInt;L1))"
 		}, []string{"C10"}, "FromRat = FromInt(num).Quo(FromInt(den)), zero numerator gives +0"},
 		{"FromFloat", func(k func(string) string) string {
-			return "if(call(math/big.Float.IsInf;recv=P0)){return call(inf;call(math/big.Float.Signbit;recv=P0))};if((call(math/big.Float.Sign;recv=P0)==K(0))){return call(zero;call(math/big.Float.Signbit;recv=P0))};L0,_:=call(math/big.Float.Rat;recv=P0,nil);return call(FromRat;L0)"
+			return "if(call(math/big.Float.IsInf;recv=P0)){return call(inf;call(math/big.Float.Signbit;recv=P0))};if((K(0)==call(math/big.Float.Sign;recv=P0))){return call(zero;call(math/big.Float.Signbit;recv=P0))};L0,_:=call(math/big.Float.Rat;recv=P0,nil);return call(FromRat;L0)"
 		}, []string{"C09"}, "FromFloat = FromRat(f.Rat(nil)) with signed Inf/zero handled first; f is only read"},
 		{"Inf", func(k func(string) string) string { return "return call(inf;(P0<K(0)))" }, []string{"C15"}, "Inf(sign) = inf(sign < 0)"},
 		{"NaN", func(k func(string) string) string { return "return call(nan;" + k("payloadOpNaN") + ",K(0),K(0))" }, []string{"C15"}, "NaN() carries the NaN() payload"},
-		{"Abs", func(k func(string) string) string {
-			return "return lit(Decimal{P0.lo,(P0.hi&K(9223372036854775807))})"
-		}, []string{"C15", "C19"}, "Abs clears bit 63 only"},
-		{"Decimal.Neg", func(k func(string) string) string {
-			return "return lit(Decimal{R.lo,(R.hi^K(9223372036854775808))})"
-		}, []string{"C15", "C19"}, "Neg flips bit 63 only"},
 		{"E", func(k func(string) string) string { return "return V:e" }, []string{"C20"}, "E returns the package constant"},
 		{"Phi", func(k func(string) string) string { return "return V:phi" }, []string{"C20"}, "Phi returns the package constant"},
 		{"Pi", func(k func(string) string) string { return "return V:pi" }, []string{"C20"}, "Pi returns the package constant"},
+	}
+	// Abs / Neg: the result is the operand with bit 63 cleared / flipped (bit provenance)
+	for _, t := range []struct {
+		fn   string
+		flip bool
+	}{{"Abs", false}, {"Decimal.Neg", true}} {
+		fd := c.fn(t.fn)
+		if fd == nil {
+			continue
+		}
+		res := singleReturn(fd)
+		var opnd types.Object
+		if fd.Recv != nil {
+			opnd = recvObj(p, fd)
+		} else if ps := paramObjs(p, fd); len(ps) == 1 {
+			opnd = ps[0]
+		}
+		okk := false
+		desc := "body is not a single Decimal literal"
+		if len(res) == 1 && opnd != nil {
+			if cl, ok := ast.Unparen(res[0]).(*ast.CompositeLit); ok && len(cl.Elts) == 2 {
+				env := &bvEnv{p: p, vars: map[types.Object]bitvec{}}
+				env.inputs = p.leafInputs(map[types.Object]string{opnd: "d"}, nil, nil)
+				lo, hi := env.eval(cl.Elts[0]), env.eval(cl.Elts[1])
+				wantLo := expectVec([]run{{63, 0, "d.lo", 0}}, nil)
+				wantHi := expectVec([]run{{62, 0, "d.hi", 0}}, nil)
+				if t.flip {
+					wantHi[63] = bit{k: 'n', src: "d.hi", idx: 63}
+				}
+				okk = lo == wantLo && hi == wantHi && p.decimalFieldOrder()
+				desc = "lo = " + lo.describe() + ", hi = " + hi.describe()
+			}
+		}
+		what := map[bool]string{false: "clears", true: "flips"}[t.flip]
+		c.check(okk, "wrap:"+t.fn, fd, t.fn+" "+what+" bit 63 only", fmt.Sprintf("%s must return its operand with bit 63 %s and every other bit unchanged; found %s", t.fn, map[bool]string{false: "cleared", true: "flipped"}[t.flip], desc), "C15", "C19")
 	}
 	for _, s := range specs {
 		fd := c.fn(s.fn)
